@@ -1,6 +1,6 @@
 """C07 — robustness against arbitrary received frames (J1939-21 part proved in lean/J1939/Props/C07.lean)."""
 import random, json
-from .. import common as C, corr21, net21, sim, gen21
+from .. import common as C, corr21, corr22, net21, sim, gen21
 from ..gen21 import rand_payload
 
 PID = 'C07'
@@ -13,7 +13,9 @@ ASSUMPTIONS = ["virtual time is positive; pacing intervals are > 0 (a zero inter
 
 
 def correspondence(ctx):
-    return corr21.run(ctx, ctx.n(40, 1500), ctx.n(200, 6000), 7)
+    a = corr21.run(ctx, ctx.n(40, 1500), ctx.n(200, 6000), 7)
+    b = corr22.run(ctx, ctx.n(10, 400), ctx.n(100, 4000), 7)         # J1939-22 under hostile traffic
+    return corr22.merge(a, b)
 
 
 def hostile_case(rng, dll='j1939-21'):
